@@ -279,6 +279,10 @@ class NDArray:
             return NotImplemented
         if not self.writeable:
             raise_(ValueError, 'output array is read-only')
+        a = self
+        while a is not None:
+            core.foreach_guard(getattr(a, '_born', 0), 'in-place arithmetic on an array')
+            a = a.base[0] if a.base is not None else None
         new = elementwise2(NDArray(self.shape, self.fn, self.dtype, self.mask_fn), other, ops[opname])
         if len(new.shape) != len(self.shape):
             raise_(ValueError, 'non-broadcastable output operand')
@@ -406,6 +410,7 @@ class NDArray:
         res = NDArray(out_shape, lambda o: src.fn(remap(o)), self.dtype,
                       (lambda o: src.mask_fn(remap(o))) if self.mask_fn is not None else None,
                       base=(self, remap, 'index'))
+        res.view_plan = (plan, tuple(out_shape))
         return res
 
     def _bool_index(self, mask):
@@ -581,9 +586,51 @@ class NDArray:
             child = self
             parent.fn = lambda i: child.fn(i)
             parent._propagate()
-        elif kind in ('index',):
-            # stores through basic-index views are not needed by the code under contract
-            raise Unsupported('store through a sliced view')
+        elif kind == 'index':
+            # NP-VIEW-STORE: a basic-index view (integers and unit-step slices) shares the buffer of its parent
+            plan, oshape = getattr(self, 'view_plan', (None, None))
+            if plan is None or any(p[0] == 'slice' and not (isinstance(p[2], int) and p[2] == 1) for p in plan):
+                raise Unsupported('store through a view with a step other than 1')
+            if parent.mask_fn is not None or self.mask_fn is not None:
+                raise Unsupported('store through a view of a masked array')
+            child = self
+            old = parent.fn
+
+            def locate(i):
+                conds, cidx, ax, o = [], [], 0, 0
+                for p in plan:
+                    if p[0] == 'new':
+                        cidx.append(0)
+                        o += 1
+                        continue
+                    if p[0] == 'int':
+                        conds.append(s_eq(i[ax], p[1]))
+                    else:
+                        st, n = p[1], oshape[o]
+                        k = i[ax] - st if not _is_zero(st) else i[ax]
+                        conds.append(mk_bool(z3.And(zint(k) >= 0, zint(k) < zint(n))))
+                        cidx.append(k)
+                        o += 1
+                    ax += 1
+                return s_and(*conds) if conds else True, tuple(cidx)
+
+            def new_fn(i):
+                inside, ci = locate(i)
+                if inside is True:
+                    return child.fn(ci)
+                if inside is False:
+                    return old(i)
+                return s_ite(inside, child.fn(ci), old(i))
+            parent.fn = new_fn
+            parent._propagate()
+        elif kind == 'transpose':
+            axes = remap
+            child = self
+
+            def tfn(i):
+                return child.fn(tuple(i[ax] for ax in axes))
+            parent.fn = tfn
+            parent._propagate()
         # 'bool'/'fancy' results are copies in numpy: nothing to propagate
 
     def _store_region(self, idx, value):
@@ -1122,6 +1169,7 @@ def transpose(a, axes=None):
     if isinstance(a, Maybe):
         a = core.resolve_maybe(a)
     a = asarray(a)
+    source = a if isinstance(a, NDArray) else None
     a = a.frozen()
     nd = a.ndim
     if axes is None:
@@ -1138,6 +1186,8 @@ def transpose(a, axes=None):
         return tuple(out)
     r = NDArray(shape, lambda i: a.fn(remap(i)), a.dtype,
                 (lambda i: a.mask_fn(remap(i))) if a.mask_fn is not None else None)
+    if a.mask_fn is None and source is not None:
+        r.base = (source, axes, 'transpose')         # numpy.transpose gives a view: a store through it reaches the array
     if nd >= 2 and axes != tuple(range(nd)):
         # a transposed view: C-contiguous data becomes non C-contiguous (exactly Fortran order when the axes are reversed)
         r.order = None if a.order is None else ('F' if a.order == 'C' else ('C' if axes == tuple(reversed(range(nd))) else None))
@@ -1610,6 +1660,41 @@ def flatnonzero(a):
     r.selection = sel
     r.sorted_unique = True
     return r
+
+
+def diff(a, n=1, axis=-1, prepend=None, append=None):
+    """NP-DIFF (vectors): out[i] = b[i + 1] - b[i] over b = [prepend] + a + [append] (scalars only)"""
+    used('NP-DIFF')
+    a = asarray(a).frozen()
+    if a.ndim != 1 or n != 1 or axis not in (-1, 0):
+        raise Unsupported('numpy.diff other than the first difference of a vector')
+    for x in (prepend, append):
+        if x is not None and not isinstance(x, (int, float, SInt, SReal, bool)):
+            raise Unsupported('numpy.diff with an array to prepend / append')
+    pre, post = (1 if prepend is not None else 0), (1 if append is not None else 0)
+    m = a.shape[0]
+
+    def b(j):           # element j of the extended vector, j from 0 to m + pre + post - 1
+        def val(x):
+            return mk_int(zint(x)) if isinstance(x, (bool, SBool)) else x
+        if not is_sym(j) and not is_sym(m):
+            if pre and j == 0:
+                return prepend
+            if post and j == m + pre:
+                return append
+            return val(a.fn((j - pre,)))
+        inner = val(a.fn((mk_int(zint(j) - pre),)))
+        out = inner
+        if pre:
+            out = s_ite(mk_bool(zint(j) == 0), prepend, out)
+        if post:
+            out = s_ite(mk_bool(zint(j) == zint(m) + pre), append, out)
+        return out
+    length = m + pre + post - 1
+    c = core.ctx()
+    if is_sym(length) and c.branch(zint(length) < 0):
+        length = 0
+    return NDArray((length,), lambda i: b(mk_int(zint(i[0]) + 1)) - b(i[0]), a.dtype if a.dtype.kind != 'b' else INT64)
 
 
 def nonzero(a):
@@ -2320,6 +2405,8 @@ class NumpyModule:
     s_ = _SIndex()
     bool_ = ScalarType(BOOL)
     int32 = ScalarType(INT32)
+    int16 = ScalarType(INT16)
+    int8 = ScalarType(INT8)
     int64 = ScalarType(INT64)
     int_ = ScalarType(INT64)
     float64 = ScalarType(FLOAT64)
@@ -2363,6 +2450,7 @@ class NumpyModule:
     all = staticmethod(np_all)
     sum = staticmethod(np_sum)
     nonzero = staticmethod(nonzero)
+    diff = staticmethod(diff)
     flatnonzero = staticmethod(flatnonzero)
     sort = staticmethod(np_sort_any)
     unique = staticmethod(np_unique)
